@@ -209,4 +209,37 @@ ContentGfx(cv, tl, tt, cols, rows) ==
 
 GfxExpected(cv, tl, tt, cols, rows) ==
   [i \in 1..rows |-> IF tl = 0 /\ cols = cv.W THEN GfxLine(cv, tt + i) ELSE <<"blank", cols>>]
+
+(* ------------------------------------------------------------------------ *)
+(* flow sizing: rows() and render() of a flow widget, and the environment   *)
+(*                                                                          *)
+(* A widget wd = [ow, oh, upscale, broken] shows an image of ow x oh pixels. *)
+(* The environment value q stands for the global cell ratio (text styles) /  *)
+(* the cell size (graphics styles): pixel ratio = q / 2.  Both the ORIGINAL  *)
+(* size in cells and the size fitted to a width depend on it, so nothing     *)
+(* derived from it may outlive an environment change.                        *)
+(* ------------------------------------------------------------------------ *)
+
+CeilDiv(a, b) == (a + b - 1) \div b
+AtLeast1(n) == IF n < 1 THEN 1 ELSE n
+
+OriginalCells(wd, q) == <<wd.ow, AtLeast1(CeilDiv(wd.oh * q, 4))>>
+FittedCells(wd, w, q) == <<w, AtLeast1(CeilDiv(w * wd.oh * q, wd.ow * 4))>>
+
+\* the decision shared by UrwidImage.rows() and the flow branch of UrwidImage.render()
+FlowImageSize(wd, w, q) ==
+  LET ori == OriginalCells(wd, q)
+      fit == FittedCells(wd, w, q)
+  IN IF wd.upscale THEN fit
+     ELSE IF ori[1] <= fit[1] /\ ori[2] <= fit[2] THEN ori ELSE fit
+
+FlowRows(wd, w, q) == FlowImageSize(wd, w, q)[2]
+
+\* render((w,)): the canvas has the requested columns and the rows of the image; when the
+\* render fails and a placeholder is set, the placeholder is rendered as a BOX of that size
+FlowRender(wd, w, q, ph) ==
+  LET size == <<w, FlowImageSize(wd, w, q)[2]>> IN
+  IF ~wd.broken THEN [kind |-> "image", cols |-> size[1], rows |-> size[2]]
+  ELSE IF ph = "none" THEN [kind |-> "raises", cols |-> 0, rows |-> 0]
+  ELSE [kind |-> "placeholder", cols |-> size[1], rows |-> size[2]]
 =============================================================================
